@@ -77,8 +77,17 @@ pub fn tree_strategy() -> impl Strategy<Value = T> {
     })
 }
 
+/// Trees decoded from a byte program by the same builder the `roundtrip` fuzz target uses: these reach
+/// the full depth 8 far more often than the recursive strategy does.
+fn deep_tree_strategy() -> impl Strategy<Value = T> {
+    prop::collection::vec(any::<u8>(), 24..400).prop_map(|bytes| {
+        let mut b = tree::Bytes::new(&bytes);
+        tree::build(&mut b, 8)
+    })
+}
+
 pub fn strategy(_t: Tier) -> impl Strategy<Value = TreeCase> {
-    (tree_strategy(), 0u8..16).prop_map(|(tree, style)| TreeCase { tree, style })
+    (prop_oneof![3 => tree_strategy().boxed(), 1 => deep_tree_strategy().boxed()], 0u8..16).prop_map(|(tree, style)| TreeCase { tree, style })
 }
 
 fn same_level_chain(t: &T) -> bool {
